@@ -122,6 +122,11 @@ def variants_param(p):
     out.append(('plain-other-annotation', plain_param(p).replace(annotation='OTHER'), False))
     if p.annotation is not p.empty:
         out.append(('upgraded-other-upgraded-annotation', p.replace(upgraded_annotation=signatures.UpgradedAnnotation.preevaluated(('DIFFERENT',))), False))
+        # the same plain data, but no upgraded annotation (what retrieval gives for callable instances and classes, and what
+        # replace(annotation=...) leaves): whether the two are equal is not pinned down, symmetry and hash consistency are
+        out.append(('upgraded-same-data-empty-upgraded-annotation', p.replace(upgraded_annotation=signatures.UpgradedAnnotation.preevaluated(p.empty)), None))
+    else:
+        out.append(('upgraded-annotation-only-upgraded', p.replace(upgraded_annotation=signatures.UpgradedAnnotation.preevaluated('ONLY-UPGRADED')), None))
     return out
 
 
